@@ -115,7 +115,9 @@ VOCAB = ["address-family ipv4 unicast", "address-family ipv6", "address-family l
          "line vty 0 4", "bgp 65000", "ipv4-family unicast", "ospf 1", "area 0.0.0.0", "aaa", "user-interface vty 0 4", "vlan batch 10 20", "policy-options",
          "protocols", "group G1", "class C1", "if destination in PS1 then", "else", "apply RP2",
          # single words that end something in some CLI, as plain rows (a `return` / `end` line also closes a device dump)
-         "end", "return", "commit", "abort", "exit", "quit"]
+         "end", "return", "commit", "abort", "exit", "quit",
+         # a row whose last character is a backslash (a Windows / UNC path, the tail of a regular expression)
+         "tftp-server \\\\fs01\\cfg\\", "as-path-regex ^65\\d+_\\"]
 
 
 def vocab_tree(rng, vname, d=0, maxd=4):
